@@ -852,6 +852,40 @@ pub fn env_set_call(r: &mut Rng) -> Call {
     Call { kind: "run".into(), rules: vec![Group::anon(vec![rule.to_string()])], words, into: vec![], from: vec![] }
 }
 
+/// calls that differ only in their deromanisers, over words that are spelled with them: alias
+/// inputs of different lengths (`y`, `ng`, `ssh`, `ツァ`), prefixes of each other (`n`/`ng`, `sh`/`ssh`)
+/// and overlapping plain graphemes (`ts`)
+pub fn deroman_family(r: &mut Rng) -> Vec<Call> {
+    let lists: [&[&str]; 9] = [
+        &["y > j"],
+        &["ng > ŋ", "n > ŋ"],
+        &["n > ŋ", "ng > ŋ"],
+        &["sh, á => ʃ, a:[+str]"],
+        &["ssh, â => ʃ:[+long], a:[+str, +long]", "sh > ʃ"],
+        &["ts > t͡s"],
+        &["カ, タ, ナ > ka, ta, na"],
+        &["ツァ > t͡sa", "ツ > t͡su"],
+        &["x > ʃ"],
+    ];
+    let pool = ["sháta", "ssha", "asha", "anga", "nata", "tsa", "atsa", "yata", "カタ", "ツァ", "ツ", "xa", "pa.ta", "an.ŋa"];
+    let nw = r.range(2, 4);
+    let words: Vec<String> = (0..nw).map(|_| (*r.pick(&pool[..])).to_string()).collect();
+    let rules = if r.chance(1, 2) { vec![] } else { vec![Group::anon(vec![(*r.pick(&["a > e", "ŋ > m", "ʃ > s", "V > [+nasal] / _N"][..])).to_string()])] };
+    let mut idx: Vec<usize> = (0..lists.len()).collect();
+    r.shuffle(&mut idx);
+    let n = r.range(2, 3);
+    idx.iter()
+        .take(n)
+        .map(|&i| {
+            let mut into: Vec<String> = lists[i].iter().map(|s| s.to_string()).collect();
+            if r.chance(1, 4) {
+                into.extend(lists[(i + 1) % lists.len()].iter().map(|s| s.to_string()));
+            }
+            Call { kind: "run".into(), rules: rules.clone(), words: words.clone(), into, from: vec![] }
+        })
+        .collect()
+}
+
 /// corpus cross product sample: a test rule applied to a handful of test words
 pub fn corpus_call(d: &Data, r: &mut Rng) -> Call {
     let rule = r.pick(&d.test_rules).clone();
